@@ -40,12 +40,38 @@ pub fn run(case: &str) -> String {
     // events are already in the loop's current batch - the path on which the loop itself reclaims a record
     let hook_us = [0u64, 0, 300, 1500, 4000][(salt % 5) as usize];
     let stagger = salt % 3 != 0;
+    let clone_streams = (salt / 5) % 3 == 0;
+    let signals = (salt / 15) % 4 == 0;
+    let burst = workers == 1 && nconn > 60;
     { let stop = stop.clone(); b.connection_setup_hook(move |c| {
         if stop.load(Ordering::SeqCst) { return ConnectionSetupAction::StopAccepting; }
         if hook_us > 0 { std::thread::sleep(Duration::from_micros(hook_us)); }
-        match c { Ok((s, _)) => ConnectionSetupAction::Proceed(s), Err(_) => ConnectionSetupAction::Drop } }); }
+        match c {
+            // every third run hands back a clone of the accepted stream (another descriptor for the same connection)
+            Ok((s, _)) => if clone_streams { match s.try_clone() { Ok(c2) => { drop(s); ConnectionSetupAction::Proceed(c2) } Err(_) => ConnectionSetupAction::Proceed(s) } } else { ConnectionSetupAction::Proceed(s) },
+            Err(_) => ConnectionSetupAction::Drop } }); }
     let server = b.build();
     let th = std::thread::spawn(move || { let _ = server.serve_epoll(); });
+    // every fourth run interrupts the event loop's epoll_wait a few times (a signal with a handler, delivered to that thread)
+    let sig_stop = Arc::new(AtomicBool::new(false));
+    let sig_thread = if signals {
+        use std::os::unix::thread::JoinHandleExt;
+        extern "C" fn noop(_: libc::c_int) {}
+        unsafe {
+            let mut sa: libc::sigaction = std::mem::zeroed();
+            sa.sa_sigaction = noop as usize;
+            libc::sigaction(libc::SIGUSR1, &sa, std::ptr::null_mut());
+        }
+        let pt = th.as_pthread_t();
+        let stop2 = sig_stop.clone();
+        Some(std::thread::spawn(move || {
+            for k in 0..6 {
+                std::thread::sleep(Duration::from_micros(300 + 1700 * k));
+                if stop2.load(Ordering::SeqCst) { break; }
+                unsafe { libc::pthread_kill(pt, libc::SIGUSR1); }
+            }
+        }))
+    } else { None };
     let connect = || -> Option<TcpStream> {
         let t = Instant::now();
         loop { match TcpStream::connect(("127.0.0.1", port)) { Ok(s) => return Some(s), Err(_) => { if t.elapsed() > Duration::from_secs(2) { return None; } std::thread::sleep(Duration::from_millis(1)); } } }
@@ -71,8 +97,10 @@ pub fn run(case: &str) -> String {
         // an eager client uses slow handlers (the response is sent first, then the handler lingers): its next request,
         // or its close, reaches the server while the previous request is still in flight on a worker
         let eager = rng.chance(1, 3);
+        // burst runs: one worker, many connections, the first one keeps the worker busy for 20 ms while all the others become ready
+        let hog = burst && ci == 0;
         let hh = std::thread::spawn(move || -> Result<(), String> {
-            if stagger { std::thread::sleep(Duration::from_micros(rng.below(9000))); }
+            if burst { if ci > 0 { std::thread::sleep(Duration::from_millis(2)); } } else if stagger { std::thread::sleep(Duration::from_micros(rng.below(9000))); }
             let mut s = {
                 let t = Instant::now();
                 loop { match TcpStream::connect(("127.0.0.1", port)) { Ok(s) => break s, Err(_) => { if t.elapsed() > Duration::from_secs(2) { return Err("connect".to_string()); } std::thread::sleep(Duration::from_millis(1)); } } }
@@ -83,9 +111,9 @@ pub fn run(case: &str) -> String {
             for j in 0..nreq {
                 if rng.chance(1, 3) { std::thread::sleep(Duration::from_micros(rng.below(300))); }
                 let last = j + 1 == nreq;
-                let slow = eager && rng.chance(2, 3);
+                let slow = hog || (eager && rng.chance(2, 3));
                 let path = if last && ending == 2 { "/err".to_string() } else if last && ending == 3 { "/close".to_string() }
-                           else if slow { format!("/slow/{}?c={ci}&r={j}", rng.range(2, 12)) } else { format!("/all?c={ci}&r={j}") };
+                           else if slow { format!("/slow/{}?c={ci}&r={j}", if hog { 12 } else { rng.range(2, 12) }) } else { format!("/all?c={ci}&r={j}") };
                 let extra = if last && ending == 1 { "Connection: close\r\n" } else { "" };
                 let body = format!("c{ci}r{j}");
                 let req = format!("POST {path} HTTP/1.1\r\nContent-Length: {}\r\n{extra}\r\n{body}", body.len());
@@ -131,6 +159,8 @@ pub fn run(case: &str) -> String {
         hs.push(hh);
     }
     for h in hs { match h.join() { Ok(Ok(())) => {}, Ok(Err(e)) => bad.push(e), Err(_) => bad.push("client panic".into()) } }
+    sig_stop.store(true, Ordering::SeqCst);
+    if let Some(t) = sig_thread { let _ = t.join(); }
     // let the server finish closing what the clients closed
     std::thread::sleep(Duration::from_millis(40));
     stop.store(true, Ordering::SeqCst);
@@ -186,7 +216,7 @@ pub fn gen(ctx: &Ctx) {
     out.rule = "real serve_epoll executions: 1..4 workers, 1..8 concurrent lock-step clients with 1..5 requests each (requests sometimes split in two segments, random sub-millisecond pauses), a third of the clients eager \
                 (slow handlers that answer first and linger 2-12 ms, so the next request or the close arrives while the previous request is in flight), endings \
                 {client close or half-close, Connection: close, handler Err, response with close}, 0..2 injected EPOLL_CTL_ADD failures; client connects staggered over 9 ms in two thirds of the runs and a setup hook that lingers 0 / 0.3 / 1.5 / 4 ms on the event-loop thread (so that \
-                connections are closed by workers while their events sit in the loop's batch: the loop-side reclamation path); every client checks that its responses arrive in order and belong to its \
+                connections are closed by workers while their events sit in the loop's batch: the loop-side reclamation path); every third run's setup hook hands back a clone of the accepted stream; every fourth run interrupts the loop's epoll_wait with signals; a burst run (one worker held 12 ms while 89 connections become ready); every client checks that its responses arrive in order and belong to its \
                 own requests; the hook event log is replayed through the Coq transition system. Schedules are sampled. non-trivial = at least 2 connections".into();
     let n = if ctx.thorough { 1500 } else { 80 };
     for _ in 0..n {
@@ -194,6 +224,12 @@ pub fn gen(ctx: &Ctx) {
         let r = run(&case);
         let nt = case.split(' ').nth(1).unwrap().parse::<u32>().unwrap() >= 2;
         out.emit(&case, &r, if r.contains("clients=ok") { "ok" } else { "client-check-failed" }, nt);
+    }
+    // bursts: one worker held for 12 ms while 89 other connections become ready (every one of them must still be served)
+    for _ in 0..(if ctx.thorough { 10 } else { 1 }) {
+        let case = format!("1 90 1 0 {}", rng.below(1 << 30));
+        let r = run(&case);
+        out.emit(&case, &r, if r.contains("clients=ok") { "burst/ok" } else { "burst/client-check-failed" }, true);
     }
     out.finish();
 }
